@@ -275,6 +275,9 @@ def _try_cursor(ts, x, posts, P, usize_state):
         for conds, leaf in leaves(t):
             if leaf == cu(0) or leaf == px:
                 continue
+            if isinstance(leaf, tuple) and len(leaf) == 3 and leaf[0] == "c" and leaf[1] == "int" and isinstance(leaf[2], int) and leaf[2] >= 1 \
+                    and has_fact(conds, ("==", px, cu(leaf[2] - 1))):
+                leaf = inc  # `0 => self.count = 1`: under n == k-1 the stored k IS n + 1
             if leaf == inc:
                 ok = False
                 for pf in P:
@@ -313,6 +316,9 @@ def _try_counter(ts, x, posts, P):
         for conds, leaf in leaves(t):
             if leaf == cu(0) or leaf == px:
                 continue
+            if isinstance(leaf, tuple) and len(leaf) == 3 and leaf[0] == "c" and leaf[1] == "int" and isinstance(leaf[2], int) and leaf[2] >= 1 \
+                    and has_fact(conds, ("==", px, cu(leaf[2] - 1))):
+                leaf = inc  # `0 => self.count = 1`: under n == k-1 the stored k IS n + 1
             if leaf == inc:
                 ok = False
                 for pf in P:
